@@ -54,7 +54,8 @@ var c08Msgs = func() [][]byte {
 	return append(msgs, bad1, bad2, bad3, bad4)
 }()
 
-var c08DecodeNames = []string{"Decode(data,m)", "Write", "UnmarshalBinary", "ReadFrom", "CloneTo", "ReadFrom(segmented stream: 20 | 10 | rest)", "ReadFrom(zero-length datagram)", "GobDecode", "Write; drop the first attribute; Encode in place", "Write; change the first attribute's type and shorten the last value in place; Encode"}
+var c08DecodeNames = []string{"Decode(data,m)", "Write", "UnmarshalBinary", "ReadFrom", "CloneTo", "ReadFrom(segmented stream: 20 | 10 | rest)", "ReadFrom(zero-length datagram)", "GobDecode", "Write; drop the first attribute; Encode in place", "Write; change the first attribute's type and shorten the last value in place; Encode",
+	"Write; the caller re-types the first entry and points the last value at a buffer of its own (no Encode); then the same datagram again (through Decode(data,m) / Write / UnmarshalBinary, by message)"}
 
 // c08Setters: each entry builds the setter list from caller-owned buffers and
 // returns the buffers so that the caller can overwrite them afterwards.
@@ -183,6 +184,24 @@ func c08Apply(m *stun.Message, u int, poison byte) error {
 			c08EditInPlace(m.Attributes)
 			m.Encode()
 		}
+	case 10:
+		if _, err = m.Write(data); err == nil {
+			if n := len(m.Attributes); n >= 1 {
+				m.Attributes[0].Type ^= 0x4000
+				own := bytes.Repeat([]byte{'#'}, len(m.Attributes[n-1].Value))
+				m.Attributes[n-1].Value = own
+			}
+			again := append([]byte(nil), c08Msgs[u%len(c08Msgs)]...) // the re-transmission, in another buffer
+			switch u % 3 {
+			case 0:
+				err = stun.Decode(again, m)
+			case 1:
+				_, err = m.Write(again)
+			case 2:
+				err = m.UnmarshalBinary(again)
+			}
+			scribble(again)
+		}
 	}
 	scribble(data)
 	return err
@@ -305,11 +324,11 @@ func c08Run(k c08Case) (outcome, key, detail string) {
 					return
 				}
 				nd := len(c08DecodeNames) * len(c08Msgs)
-				if u < nd && (u/len(c08Msgs) < 5 || u/len(c08Msgs) == 7) && !bytes.Equal(m.Raw, c08Msgs[u%len(c08Msgs)]) {
+				if u < nd && (u/len(c08Msgs) < 5 || u/len(c08Msgs) == 7 || u/len(c08Msgs) == 10) && !bytes.Equal(m.Raw, c08Msgs[u%len(c08Msgs)]) {
 					key, detail = "input-aliased", fmt.Sprintf("%s: Raw changed when the caller overwrote its input", c08UseName(u))
 					return
 				}
-				if u < nd && (u/len(c08Msgs) < 5 || u/len(c08Msgs) == 7) {
+				if u < nd && (u/len(c08Msgs) < 5 || u/len(c08Msgs) == 7 || u/len(c08Msgs) == 10) {
 					// absolute check (the fresh twin shares any aliasing bug): after the caller overwrote its input the
 					// decoded content must still be that of the original bytes, and every value must live inside m.Raw
 					want, _ := ref.Parse(c08Msgs[u%len(c08Msgs)])
@@ -318,6 +337,10 @@ func c08Run(k c08Case) (outcome, key, detail string) {
 						return
 					}
 					for i, a := range m.Attributes {
+						if uint16(a.Type) != ref.CanonType(want.Attrs[i].Type) {
+							key, detail = "stale-attribute", fmt.Sprintf("%s: attribute %d has type %#04x, the message carries %#04x", c08UseName(u), i, uint16(a.Type), want.Attrs[i].Type)
+							return
+						}
 						if !bytes.Equal(a.Value, want.Attrs[i].Value) {
 							key, detail = "input-aliased", fmt.Sprintf("%s: attribute %d reads %x after the caller overwrote its input buffer, the message carried %x", c08UseName(u), i, clip(a.Value), clip(want.Attrs[i].Value))
 							return
@@ -370,6 +393,7 @@ func c08Run(k c08Case) (outcome, key, detail string) {
 				}
 				// results of MarshalBinary and CloneTo are unaffected by later changes to the source
 				mb, _ := m.MarshalBinary()
+				gb, _ := m.GobEncode()
 				clone := new(stun.Message)
 				if cerr := m.CloneTo(clone); cerr != nil {
 					key, detail = "clone-fails", cerr.Error()
@@ -401,6 +425,10 @@ func c08Run(k c08Case) (outcome, key, detail string) {
 				c08Poison(m, k.Poison)
 				if !bytes.Equal(mb, want) {
 					key, detail = "marshal-aliased", "MarshalBinary result changed with the source"
+					return
+				}
+				if !bytes.Equal(gb, want) {
+					key, detail = "marshal-aliased", "GobEncode result changed when the source (its bytes and the storage it keeps behind them) was overwritten"
 					return
 				}
 				if !bytes.Equal(clone.Raw, want) {
